@@ -2,7 +2,7 @@
    Proved: the collection policy (strict raises the first error that lax collects, skip collects none),
    the verdict equivalences and the exit status.  That seven source kinds and six entry points feed the
    same error stream is plumbing, checked by the correspondence harness. *)
-From XV Require Import Base Limits LimitsProofs.
+From XV Require Import Base Limits LimitsProofs Context ContextProofs.
 
 Theorem C04_strict_raises_first : forall (E : Type) (es : list E) e,
   run_mode Strict es = Raise e <-> hd_error es = Some e.
@@ -37,3 +37,20 @@ Print Assumptions C04_cli_status_range.
 (* non-vacuity: 256 errors do not give status 0 *)
 Example C04_example : cli_status [repeat tt 256] = 255%Z /\ cli_status [[]; @nil unit] = 0%Z.
 Proof. vm_compute. split; reflexivity. Qed.
+
+(* context copies (inheritable attributes, hook modes) share the error list: lax collects every error of the
+   document whatever copies are made, so is_valid agrees with strict mode *)
+Theorem C04_copies_share_errors : forall n, lax_errors true n = all_errors n.
+Proof. exact lax_collects_document_errors. Qed.
+Print Assumptions C04_copies_share_errors.
+
+Theorem C04_is_valid_iff_strict_passes : forall n, ctx_is_valid true n = negb (ctx_strict_raises n).
+Proof. exact ctx_is_valid_iff_strict_passes. Qed.
+Print Assumptions C04_is_valid_iff_strict_passes.
+
+(* the behaviour before fix 8044325 (private error list in the copy): the content errors of a copying element are lost,
+   is_valid is true while strict mode raises *)
+Example C04_private_copy_refuted :
+  let n := ENode [] true [] [ENode [7%N] false [] []] in
+  ctx_is_valid false n = true /\ ctx_strict_raises n = true /\ ctx_is_valid true n = false.
+Proof. vm_compute. repeat split. Qed.
